@@ -284,6 +284,42 @@ pub fn run() -> Report {
     for p in parts {
         rep.merge(p);
     }
+    // (f) "blocksize = the stored length prefix": records whose prefix is larger than the serialised block (padding inside
+    // the record), index status carrying OPT_WITNESS (two-byte VarInt status)
+    {
+        use refmodel::world::{IndexRec, ACTIVE, HAVE_DATA, OPT_WITNESS, VALID_SCRIPTS};
+        let wk = Worker::new(&root, 700);
+        for cname in ["bitcoin", "litecoin"] {
+            let cn = coin(cname);
+            let mut cb = ChainBuilder::with_genesis(cn);
+            cb.push(vec![TxP::base().build(3)]);
+            cb.push(vec![TxP::base().build(4)]);
+            let mut world = World::new(cn);
+            let mut ms = Vec::new();
+            for (h, b) in cb.blocks.iter().enumerate() {
+                let mut raw = b.ser();
+                let pad = [0usize, 8, 1][h % 3];
+                let prefix = (raw.len() + pad) as u32;
+                raw.extend(std::iter::repeat(0u8).take(pad));
+                let pos = world.place_raw(0, &raw, prefix);
+                world.put_rec(&IndexRec { hash: b.hash(), client_version: 270000, height: h as u64, status: if h == 0 { VALID_SCRIPTS | HAVE_DATA } else { ACTIVE | OPT_WITNESS }, ntx: b.txs.len() as u64, file: 0, data_pos: pos, undo_pos: 9, header: b.header.ser() });
+                ms.push(refmodel::model::MBlock { height: h as u64, size: prefix, block: b.clone() });
+            }
+            let spec = RunSpec::new(cname, "csvdump").verify(true);
+            match wk.world_run(&world, &spec) {
+                Err(m) => rep.machinery(m),
+                Ok(r) => {
+                    rep.states += 1;
+                    rep.transitions += 1;
+                    rep.count("stored-size-prefix-differs-from-serialised-length", 1);
+                    rep.nontrivial.insert(h8(format!("prefix{}", cname).as_bytes()));
+                    if let Some((sig, detail)) = check_csvdump(&r, cn, &ms, 0, 2).into_iter().next() {
+                        rep.disagree(&format!("stored-prefix:{}", sig), format!("{}: {}", cname, detail), replay_case(&world, &spec, expected_brief("blocksize column = stored prefix", 0, 2), &r, &wk.dir));
+                    }
+                }
+            }
+        }
+    }
     let _ = std::fs::remove_dir_all(&root);
     rep
 }
